@@ -564,7 +564,9 @@ def check_mirror(prog: Program, res: Result) -> None:
         from .core import unroll_literal_loops
         fi = FuncInfo(fi0.qual, fi0.module, unroll_literal_loops(fi0.node),
                       fi0.cls)
-        leaves = leaf_texts(fi, skip_subgraph=True)
+        from .normalise import strip_inl
+        leaves = [(strip_inl(t), n)
+                  for t, n in leaf_texts(fi, skip_subgraph=True)]
         texts = [t for t, _ in leaves]
         bag = {}
         for t in texts:
@@ -852,44 +854,342 @@ def check_candidates(prog: Program, res: Result) -> None:
                     bad = True
             if not bad:
                 res.ok("R-CAND-SOUND", inst, fi.loc(c))
-    # structure of the two branches
-    txt = ast.unparse(src)
-    def require(cond, key, msg):
-        inst = f"{fi.short}: {key}"
-        if cond:
-            res.ok("R-CAND-SOUND", inst, fi.loc())
+    # structure of the branches: evaluated per syntactic path on the canonical
+    # form (record fields under their own names, however they were read)
+    cfi = canon_records(prog, fi, fields)
+    _check_candidate_paths(res, cfi)
+
+
+def canon_records(prog: Program, fi: FuncInfo,
+                  fields: dict[str, list[str]] | None = None) -> FuncInfo:
+    """Clone of fi in which every way of reading a field of the _Parameters /
+    _State records -- positional unpacking (with ``*_``), attribute access,
+    alias assignment -- is replaced by a bare name equal to the field name."""
+    from .core import clone, set_parents
+    fields = fields or record_fields(prog)
+    fn = clone(fi.node)
+    recs: dict[str, list[str]] = {}
+    a = fn.args
+    for arg in a.posonlyargs + a.args + a.kwonlyargs:
+        ann = norm(arg.annotation) if arg.annotation is not None else ""
+        for cname, fl in fields.items():
+            if ann.strip("'\"") == cname or (not ann and arg.arg == {
+                    "_Parameters": "params", "_State": "state"}[cname]):
+                recs[arg.arg] = fl
+    rename: dict[str, str] = {}
+
+    def field_of(e):
+        if isinstance(e, ast.Attribute) and isinstance(e.value, ast.Name) and \
+                e.value.id in recs and e.attr in recs[e.value.id]:
+            return e.attr
+        return None
+
+    def strip(stmts):
+        out = []
+        for st in stmts:
+            for f in ("body", "orelse", "finalbody"):
+                sub = getattr(st, f, None)
+                if isinstance(sub, list) and sub and isinstance(
+                        sub[0], ast.stmt):
+                    setattr(st, f, strip(sub) or [ast.Pass()])
+            if isinstance(st, ast.Assign) and len(st.targets) == 1:
+                t, v = st.targets[0], st.value
+                if isinstance(t, (ast.Tuple, ast.List)) and isinstance(
+                        v, ast.Name) and v.id in recs:
+                    fl = recs[v.id]
+                    elts = t.elts
+                    star = [i for i, e in enumerate(elts)
+                            if isinstance(e, ast.Starred)]
+                    pos = {}
+                    if not star:
+                        pos = dict(enumerate(range(len(elts))))
+                    elif len(star) == 1:
+                        k = star[0]
+                        for i in range(k):
+                            pos[i] = i
+                        for j in range(1, len(elts) - k):
+                            pos[len(elts) - j] = len(fl) - j
+                    ok = True
+                    for i, fidx in pos.items():
+                        e = elts[i]
+                        if isinstance(e, ast.Name) and 0 <= fidx < len(fl):
+                            if e.id != "_":
+                                rename[e.id] = fl[fidx]
+                        else:
+                            ok = False
+                    if ok and pos:
+                        continue
+                f1 = field_of(v)
+                if isinstance(t, ast.Name) and f1:
+                    rename[t.id] = f1
+                    continue
+                if isinstance(t, ast.Tuple) and isinstance(v, ast.Tuple) and \
+                        len(t.elts) == len(v.elts) and all(
+                        isinstance(x, ast.Name) for x in t.elts) and all(
+                        field_of(x) for x in v.elts):
+                    for x, y in zip(t.elts, v.elts):
+                        rename[x.id] = field_of(y)
+                    continue
+            out.append(st)
+        return out
+
+    fn.body = strip(fn.body)
+
+    class T(ast.NodeTransformer):
+        def visit_Attribute(self, node):
+            f1 = field_of(node)
+            if f1:
+                return ast.copy_location(ast.Name(f1, node.ctx), node)
+            self.generic_visit(node)
+            return node
+
+        def visit_Name(self, node):
+            if node.id in rename:
+                return ast.copy_location(
+                    ast.Name(rename[node.id], node.ctx), node)
+            return node
+
+    fn = T().visit(fn)
+    ast.fix_missing_locations(fn)
+    set_parents(fn)
+    return FuncInfo(fi.qual, fi.module, fn, fi.cls)
+
+
+def _alpha(e: ast.AST) -> str:
+    """Text of e with comprehension variables renamed canonically."""
+    from .core import clone
+    e = clone(e)
+    table = {}
+    for c in ast.walk(e):
+        if isinstance(c, ast.comprehension):
+            for n in ast.walk(c.target):
+                if isinstance(n, ast.Name):
+                    table.setdefault(n.id, f"_v{len(table)}")
+    for n in ast.walk(e):
+        if isinstance(n, ast.Name) and n.id in table:
+            n.id = table[n.id]
+    return re.sub(r"\s", "", ast.unparse(e))
+
+
+def _check_candidate_paths(res: Result, fi: FuncInfo) -> None:
+    fn = fi.node
+    u = fi.params()[0]
+    rets = [n for n in ast.walk(fn) if isinstance(n, ast.Return)]
+    cand_vars = {r.value.id for r in rets if isinstance(r.value, ast.Name)}
+    LABEL = f"nodes_of_g2Labels[g1_labels[{u}]]"
+    DEGREE = f"g2_nodes_of_degree[g1_degree[{u}]]"
+    # locals defined once by a pure expression are read through
+    single: dict[str, ast.AST] = {}
+    counts: dict[str, int] = {}
+    for n in ast.walk(fn):
+        if isinstance(n, ast.Name) and isinstance(n.ctx, ast.Store):
+            counts[n.id] = counts.get(n.id, 0) + 1
+    for n in ast.walk(fn):
+        if isinstance(n, ast.Assign) and len(n.targets) == 1 and isinstance(
+                n.targets[0], ast.Name) and counts.get(
+                n.targets[0].id) == 1 and isinstance(
+                n.value, (ast.Subscript, ast.Name, ast.ListComp, ast.SetComp)):
+            single[n.targets[0].id] = n.value
+
+    def covered_kind(e) -> str | None:
+        """'all' | 'first' | 'rest' when e denotes the covered neighbours of
+        u / the first of them / the others."""
+        if isinstance(e, ast.Name) and e.id in single:
+            return covered_kind(single[e.id])
+        if isinstance(e, (ast.ListComp, ast.SetComp, ast.GeneratorExp)):
+            t = _alpha(e)
+            if t in (f"[_v0for_v0ing1_nbrhd[{u}]if_v0inmapping]",
+                     f"{{_v0for_v0ing1_nbrhd[{u}]if_v0inmapping}}",
+                     f"(_v0for_v0ing1_nbrhd[{u}]if_v0inmapping)"):
+                return "all"
+            if f"g1_nbrhd[{u}]" in t:
+                return "deviant"
+            return None
+        if isinstance(e, ast.Subscript):
+            base = covered_kind(e.value)
+            if base == "all":
+                sl = norm(e.slice)
+                if sl == "0":
+                    return "first"
+                if sl == "1:":
+                    return "rest"
+                return "deviant-slice"
+            return base if base and base.startswith("deviant") else None
+        return None
+
+    def classify(e, loopvars) -> str:
+        t = re.sub(r"\s", "", norm(e, 400))
+        if t == LABEL:
+            return "LABEL"
+        if t == DEGREE:
+            return "DEGREE"
+        if t == "external2":
+            return "EXT"
+        if t == "inverted_mapping":
+            return "USED"
+        if isinstance(e, ast.Name) and e.id in single:
+            return classify(single[e.id], loopvars)
+        m = re.fullmatch(r"g2_nbrhd\[mapping\[(.+)\]\]", t)
+        if m and isinstance(e, ast.Subscript) and isinstance(
+                e.slice, ast.Subscript):
+            x = e.slice.slice
+            if isinstance(x, ast.Name) and x.id in loopvars:
+                return "NBR:" + loopvars[x.id]
+            k = covered_kind(x)
+            if k:
+                return "NBR:" + k
+        return "?" + t[:60]
+
+    # path enumeration ------------------------------------------------------
+    def walk(stmts, events, guards, loopvars):
+        """yields (events, guards) for every path that reaches a return."""
+        if not stmts:
+            yield None
+            return
+        st, rest = stmts[0], stmts[1:]
+        if isinstance(st, ast.Return):
+            yield (list(events), list(guards), st)
+            return
+        if isinstance(st, ast.If):
+            t = norm(st.test)
+            for branch, pol in ((st.body, True), (st.orelse, False)):
+                ev, gd = list(events), guards + [(t, pol)]
+                fell = False
+                for r in walk(list(branch), ev, gd, loopvars):
+                    if r is None:
+                        fell = True
+                    else:
+                        yield r
+                if fell or not branch:
+                    yield from walk(rest, ev, gd, loopvars)
+            return
+        if isinstance(st, ast.For):
+            lv = dict(loopvars)
+            if isinstance(st.target, ast.Name):
+                lv[st.target.id] = covered_kind(st.iter) or (
+                    "?" + norm(st.iter, 40))
+            for b in st.body:
+                record(b, events, lv, in_loop=True)
+            yield from walk(rest, events, guards, loopvars)
+            return
+        record(st, events, loopvars, in_loop=False)
+        yield from walk(rest, events, guards, loopvars)
+
+    def record(st, events, loopvars, in_loop):
+        if isinstance(st, ast.Assign) and len(st.targets) == 1 and isinstance(
+                st.targets[0], ast.Name) and st.targets[0].id in cand_vars:
+            v = st.value
+            # loop variables that were re-bound by a plain assignment
+            if isinstance(v, ast.Call) and call_name(v) in ("set", "frozenset") \
+                    and len(v.args) == 1:
+                events.append(("seed", classify(v.args[0], loopvars), st))
+            elif isinstance(v, ast.Call) and isinstance(
+                    v.func, ast.Attribute) and v.func.attr == "copy":
+                events.append(("seed", classify(v.func.value, loopvars), st))
+            elif isinstance(v, ast.BinOp) and isinstance(v.op, ast.BitAnd):
+                events.append(("seed", classify(v.left, loopvars), st))
+                events.append(("inter", classify(v.right, loopvars), st))
+            else:
+                events.append(("seed", "?" + norm(v, 60), st))
+            return
+        if isinstance(st, ast.Assign) and len(st.targets) == 1 and isinstance(
+                st.targets[0], ast.Name):
+            k = covered_kind(st.value)
+            if k in ("first", "rest", "all") and \
+                    st.targets[0].id not in single:
+                loopvars[st.targets[0].id] = k
+            return
+        if isinstance(st, ast.AugAssign) and isinstance(
+                st.target, ast.Name) and st.target.id in cand_vars:
+            kind = {ast.BitAnd: "inter", ast.Sub: "diff"}.get(type(st.op))
+            events.append((kind or "other", classify(st.value, loopvars), st))
+            return
+        if isinstance(st, ast.Expr) and isinstance(st.value, ast.Call) and \
+                isinstance(st.value.func, ast.Attribute) and isinstance(
+                st.value.func.value, ast.Name) and \
+                st.value.func.value.id in cand_vars:
+            kind = {"intersection_update": "inter",
+                    "difference_update": "diff"}.get(st.value.func.attr,
+                                                     "other")
+            for arg in st.value.args:
+                events.append((kind, classify(arg, loopvars), st))
+            return
+        if isinstance(st, (ast.If, ast.For, ast.While)):
+            for sub in ast.walk(st):
+                if sub is not st and isinstance(sub, ast.stmt):
+                    record(sub, events, loopvars, in_loop)
+
+    n_paths = 0
+    lv0: dict[str, str] = {}
+    for r in walk(list(fn.body), [], [], lv0):
+        if r is None:
+            continue
+        events, guards, ret = r
+        if not (isinstance(ret.value, ast.Name) and ret.value.id in cand_vars):
+            continue
+        n_paths += 1
+        kinds = [(k, c) for k, c, _ in events]
+        applied = {c for k, c in kinds if k in ("seed", "inter")}
+        removed = {c for k, c in kinds if k == "diff"}
+        unknown = [c for k, c in kinds if c.startswith("?") or k == "other"]
+        # which branch of "any neighbour of u mapped yet?"
+        none_covered = None
+        for t, pol in guards:
+            tt = t
+            for name, val in single.items():
+                if covered_kind(val) == "all":
+                    tt = re.sub(rf"\b{name}\b", "COVERED", tt)
+            if tt in ("not COVERED", "len(COVERED) == 0"):
+                none_covered = pol
+            elif tt in ("COVERED", "len(COVERED) > 0", "len(COVERED) != 0"):
+                none_covered = not pol
+        gtxt = " and ".join(("" if pol else "not ") + f"({t})"
+                            for t, pol in guards) or "always"
+        base = f"{fi.short} [{gtxt}]"
+
+        def settle(ok, what, why):
+            inst = f"{base}: {what}"
+            if ok:
+                res.ok("R-CAND-SOUND", inst, fi.loc(ret))
+            elif unknown:
+                res.unrecognised("R-CAND-SOUND", inst, fi.loc(ret),
+                                 f"{why}; the path also applies "
+                                 f"{unknown} which this rule cannot read")
+            else:
+                res.bad("R-CAND-SOUND", inst, fi.loc(ret),
+                        f"{base}: {why}", instance=inst)
+
+        settle("LABEL" in applied, "label class of u applied",
+               f"the label class {LABEL} is not applied on this path")
+        settle("DEGREE" in applied, "degree class of u applied",
+               f"the degree class {DEGREE} is not applied on this path")
+        settle("USED" in removed, "used atoms subtracted",
+               "inverted_mapping is not subtracted on this path")
+        if none_covered is True:
+            continue
+        nbr = {c.split(":", 1)[1] for c in applied if c.startswith("NBR:")}
+        full = "all" in nbr or {"first", "rest"} <= nbr
+        deviant = any(x.startswith("deviant") for x in nbr) or any(
+            c.startswith("NBR:?") for c in applied)
+        if none_covered is None and not nbr:
+            res.unrecognised("R-CAND-SOUND", f"{base}: covered neighbours",
+                             fi.loc(ret), "branch on the covered neighbours "
+                             "of u not recognised")
+            continue
+        inst = f"{base}: all covered neighbours constrain the candidates"
+        if full and not deviant:
+            res.ok("R-CAND-SOUND", inst, fi.loc(ret))
+        elif unknown and not deviant:
+            res.unrecognised("R-CAND-SOUND", inst, fi.loc(ret),
+                             f"neighbour constraints {sorted(nbr)} plus "
+                             f"unread {unknown}")
         else:
-            res.bad("R-CAND-SOUND", inst, fi.loc(), f"{fi.short}: {msg}",
+            res.bad("R-CAND-SOUND", inst, fi.loc(ret),
+                    f"{base}: the candidate set is not the intersection of "
+                    "g2_nbrhd[mapping[n]] over ALL covered neighbours n of u "
+                    f"(found constraints for: {sorted(nbr) or 'none'})",
                     instance=inst)
-    covered = [n for n in ast.walk(src) if isinstance(n, ast.Assign)
-               and norm(n.targets[0]) == "covered_nbrs"]
-    require(len(covered) == 1 and re.sub(r"\s", "", norm(covered[0].value)) ==
-            f"[nbrfornbring1_nbrhd[{u}]ifnbrinmapping]".replace(" ", ""),
-            "covered neighbours = neighbours of u already mapped",
-            "covered_nbrs is not `[nbr for nbr in g1_nbrhd[u] if nbr in "
-            "mapping]`")
-    require(txt.count(f"nodes_of_g2Labels[g1_labels[{u}]]") >= 2,
-            "label class of u applied on both branches",
-            "the label class nodes_of_g2Labels[g1_labels[u]] is not applied "
-            "on both branches")
-    require(txt.count(f"g2_a_of_deg[g1_deg[{u}]]") >= 2,
-            "degree class of u applied on both branches",
-            "the degree class g2_a_of_deg[g1_deg[u]] is not applied on both "
-            "branches")
-    require(n_diff >= 2, "used atoms subtracted on both branches",
-            "inverted_mapping is not subtracted on both branches")
-    seed = [n for n in ast.walk(src) if isinstance(n, ast.Assign)
-            and norm(n.value) == "set(g2_nbrhd[mapping[nbr1]])"]
-    first = [n for n in ast.walk(src) if isinstance(n, ast.Assign)
-             and norm(n.value) == "covered_nbrs[0]"]
-    loop = [n for n in ast.walk(src) if isinstance(n, ast.For)
-            and norm(n.iter) == "covered_nbrs[1:]"]
-    require(bool(seed and first and loop) and any(
-        norm(b) == f"candidates.intersection_update(g2_nbrhd[mapping[{norm(loop[0].target)}]])"
-        for b in loop[0].body) if loop else False,
-            "all covered neighbours constrain the candidates",
-            "the candidate set is not the intersection of "
-            "g2_nbrhd[mapping[n]] over covered_nbrs[0] and covered_nbrs[1:]")
+    res.need("R-CAND-SOUND", n_paths, 2, "return paths of _find_candidates")
 
 
 # ---------------------------------------------------------------------------
@@ -1349,7 +1649,7 @@ def check_stereo_index(prog: Program, res: Result) -> None:
         conds = [c for c in conds if c not in ("stereo", "stereo_change",
                                                "TYPE_CHECKING")]
         badc = [c for c in conds if not re.fullmatch(
-            r"\w+ is not None", c)]
+            r"\w+ is not None|skip if \w+ is None", c)]
         inst = f"_sanity_check_and_init: {norm(call, 70)}"
         if src is None or not src.startswith(f"g{side}."):
             res.bad("R-STEREO-INDEX", inst + " source", fi.loc(call),
